@@ -405,6 +405,23 @@ def shift_count_literals(e, inside=False, acc=None):
     return acc
 
 
+def mul_right_literals(e, inside=False, acc=None):
+    """indices of literals occurring inside the right operand of a multiplication"""
+    if acc is None:
+        acc = set()
+    if e[0] == "lit":
+        if inside:
+            acc.add(e[1])
+    elif e[0] == "mul":
+        mul_right_literals(e[1], inside, acc)
+        mul_right_literals(e[2], True, acc)
+    else:
+        for x in e[1:]:
+            if isinstance(x, (list, tuple)):
+                mul_right_literals(x, inside, acc)
+    return acc
+
+
 def render(e, littext):
     """fully parenthesised C text; littext(index, suffix) -> literal token text"""
     k = e[0]
